@@ -362,6 +362,11 @@ func TestRegShapes(t *testing.T) {
 			runShapeHistory(q, ev, base, small, &shapeStats{})
 			if q.HasSpecFail(f.Key) {
 				r.ReplaceSpecFailOps(f.Key, small)
+				for _, g := range q.SpecFailures { // the detail of the minimised history (peer numbers differ)
+					if g.Key == f.Key {
+						r.SpecFailures[i].Detail = g.Detail
+					}
+				}
 			}
 		}
 	}
